@@ -40,18 +40,40 @@ import (
 // clusterCfg is the protocol-level configuration shared by all nodes of one
 // simulated network.
 type clusterCfg struct {
-	N          int
-	BlockTime  time.Duration
-	SRIH       bool          // StateRootInHeader: prepare requests carry and check the state root
-	ExtPool    bool          // payloads pass a real extpool.Pool (witness, height, sender, dedup) first, as in network.Server
-	MaxTx      int           // MaxTransactionsPerBlock (0 = default)
-	MaxSysFee  int64         // MaxBlockSystemFee (0 = default)
-	Extra      int           // committee members beyond the N validators; they run nodes too (watch-only until elected)
-	MaxTPB     time.Duration // MaxTimePerBlock (0 = off): empty proposals are postponed until a transaction arrives
-	SwitchTo   int           // ValidatorsHistory: the number of validators changes from N to SwitchTo (0 = constant) ...
-	SwitchAt   uint32        // ... at this height (a multiple of the committee size); the committee is all nodes
+	N         int
+	BlockTime time.Duration
+	SRIH      bool          // StateRootInHeader: prepare requests carry and check the state root
+	ExtPool   bool          // payloads pass a real extpool.Pool (witness, height, sender, dedup) first, as in network.Server
+	MaxTx     int           // MaxTransactionsPerBlock (0 = default)
+	MaxSysFee int64         // MaxBlockSystemFee (0 = default)
+	Extra     int           // committee members beyond the N validators; they run nodes too (watch-only until elected)
+	MaxTPB    time.Duration // MaxTimePerBlock (0 = off): empty proposals are postponed until a transaction arrives
+	SwitchTo  int           // ValidatorsHistory: the number of validators changes from N to SwitchTo (0 = constant) ...
+	SwitchAt  uint32        // ... at this height (a multiple of the committee size); the committee is all nodes
+	MaxSize   uint32        // MaxBlockSize (0 = default)
+	// Misconfigured validators (misconf_test.go): node-local block limits that
+	// differ from everybody else's. The nodes run the same honest code.
+	Mis        []misNode
 	KeyLabel   string
 	WalletsDir string
+}
+
+// misNode gives one node its own value of one block limit (the fields left
+// zero keep the cluster's value).
+type misNode struct {
+	Node      int    `json:"node"`
+	MaxTx     int    `json:"max_tx,omitempty"`
+	MaxSize   uint32 `json:"max_size,omitempty"`
+	MaxSysFee int64  `json:"max_sys_fee,omitempty"`
+}
+
+func (c clusterCfg) misOf(node int) *misNode {
+	for i := range c.Mis {
+		if c.Mis[i].Node == node {
+			return &c.Mis[i]
+		}
+	}
+	return nil
 }
 
 // F is the number of silent validators every validator set of the run
@@ -75,6 +97,22 @@ func (c clusterCfg) String() string {
 	s := fmt.Sprintf("n=%d+%d srih=%v extpool=%v maxtx=%d maxsysfee=%d maxtpb=%s", c.N, c.Extra, c.SRIH, c.ExtPool, c.MaxTx, c.MaxSysFee, c.MaxTPB)
 	if c.SwitchTo > 0 {
 		s += fmt.Sprintf(" validators %d->%d at height %d", c.N, c.SwitchTo, c.SwitchAt)
+	}
+	if c.MaxSize > 0 {
+		s += fmt.Sprintf(" maxsize=%d", c.MaxSize)
+	}
+	for _, m := range c.Mis {
+		s += fmt.Sprintf(" node%d{", m.Node)
+		if m.MaxTx > 0 {
+			s += fmt.Sprintf("maxtx=%d", m.MaxTx)
+		}
+		if m.MaxSize > 0 {
+			s += fmt.Sprintf("maxsize=%d", m.MaxSize)
+		}
+		if m.MaxSysFee > 0 {
+			s += fmt.Sprintf("maxsysfee=%d", m.MaxSysFee)
+		}
+		s += "}"
 	}
 	return s
 }
@@ -118,6 +156,13 @@ type prepRec struct {
 	Txs       []util.Uint256
 }
 
+// respRec is a PrepareResponse seen at the sender's Broadcast boundary.
+type respRec struct {
+	Node   int
+	Height uint32
+	View   byte
+}
+
 // txRec is a transaction given to the network together with where and when it
 // entered a validator's pool.
 type txRec struct {
@@ -130,6 +175,8 @@ type txRec struct {
 	mu        sync.Mutex
 	PooledAt  map[int]uint32 // node -> its chain height right after PoolTx succeeded
 	Requested bool           // reached some pool through RequestTx
+	Burst     int            // misconf schedules: the burst it belongs to (from 1)
+	Deadline  uint32         // misconf schedules: the height by which it must be on chain
 }
 
 const maxPreps = 20000
@@ -142,6 +189,7 @@ type recorder struct {
 	events        []blockEvent
 	commits       []commitRec
 	preps         []prepRec
+	resps         []respRec
 	txs           map[util.Uint256]*txRec
 	txOrder       []util.Uint256
 	panics        []string
@@ -297,6 +345,7 @@ func protoCfg(c clusterCfg, ks []*keys.PrivateKey) func(*config.Blockchain) {
 			StateRootInHeader:           c.SRIH,
 			MaxTransactionsPerBlock:     uint16(c.MaxTx),
 			MaxBlockSystemFee:           c.MaxSysFee,
+			MaxBlockSize:                c.MaxSize,
 			MaxTimePerBlock:             c.MaxTPB,
 			MemPoolSize:                 5000,
 			Hardforks:                   nil, // all stable hardforks from genesis
@@ -304,6 +353,28 @@ func protoCfg(c clusterCfg, ks []*keys.PrivateKey) func(*config.Blockchain) {
 		if c.SwitchTo > 0 {
 			b.ProtocolConfiguration.ValidatorsCount = 0
 			b.ProtocolConfiguration.ValidatorsHistory = map[uint32]uint32{0: uint32(c.N), c.SwitchAt: uint32(c.SwitchTo)}
+		}
+	}
+}
+
+// protoCfgOf is the configuration of one node: the cluster's, with the
+// node-local block limits of a misconfigured validator.
+func protoCfgOf(c clusterCfg, ks []*keys.PrivateKey, node int) func(*config.Blockchain) {
+	base := protoCfg(c, ks)
+	m := c.misOf(node)
+	if m == nil {
+		return base
+	}
+	return func(b *config.Blockchain) {
+		base(b)
+		if m.MaxTx > 0 {
+			b.ProtocolConfiguration.MaxTransactionsPerBlock = uint16(m.MaxTx)
+		}
+		if m.MaxSize > 0 {
+			b.ProtocolConfiguration.MaxBlockSize = m.MaxSize
+		}
+		if m.MaxSysFee > 0 {
+			b.ProtocolConfiguration.MaxBlockSystemFee = m.MaxSysFee
 		}
 	}
 }
@@ -464,7 +535,7 @@ func newCluster(t testing.TB, cfg clusterCfg, net *simnet) (*cluster, error) {
 	net.attach(cl)
 	for i := 0; i < cfg.Nodes(); i++ {
 		nd := &node{idx: i, cl: cl, bqDone: make(chan struct{})}
-		bc, err := openLedger(cl.pcfg)
+		bc, err := openLedger(protoCfgOf(cfg, cl.keys, i))
 		if err != nil {
 			return nil, fmt.Errorf("ledger %d: %w", i, err)
 		}
@@ -674,6 +745,10 @@ func (cl *cluster) observePayload(from int, raw []byte) (string, int, uint32) {
 		}
 	case "PrepareRequest":
 		rec.timerSent[from]++
+	case "PrepareResponse":
+		if len(rec.resps) < 4*maxPreps {
+			rec.resps = append(rec.resps, respRec{from, p.Height(), p.ViewNumber()})
+		}
 	}
 	if p.Type().String() == "PrepareRequest" && len(rec.preps) >= maxPreps {
 		// a proposal storm: from this height on the inclusion oracle cannot
